@@ -61,6 +61,10 @@ claim("C20", "registry agreement of archive member names between writer, reader 
       "Decides C20.1 (writer/reader/hash-list agree on the three members; an unexpected member is an error and never skipped), C20.2 (each hash is fed on write and read; a repeated name continues the same hash), C20.3 (read succeeds only below a successful DecodeAndVerify, which rejects mismatch, unlisted name and missing checksum), C20.4 (Read/Verify succeed only below read and gzip conclusion; raft.Restore only in snapshot.Restore below a successful Read). Byte-exact round trip and detection at every corruption offset (tar/gzip framing) are not decided.",
       "DESIGN.md section 3 C20")
 
+claim("C18", "lockset (must-flow of eventLock over read/write/commit/publish), edge-cut guards of the table write by version/UID comparisons, who-may-write on the resources table, nil-on-error contradiction rule, registry agreement of the watch topic and its snapshot handler",
+      "Decides C18.1 (both CAS writers hold eventLock from the read to the publication, publish after Commit, and write only below version-equal and UID-equal edges; create only with empty version), C18.2 (only they and the restoration handle write the table), C18.3 (no nil error below an err != nil edge — four such sites were repaired), C18.4 (WatchList's topic has a registered snapshot handler that lists under a read transaction; restore refreshes the topic). Linearizability under real schedules is not decided.",
+      "DESIGN.md section 3 C18")
+
 NA_REASON = {}
 
 checks = []
